@@ -17,7 +17,7 @@ for n in "${names[@]}"; do
   caught=""
   for p in $prop $checks; do
     s=$(date +%s)
-    VERIF_SEED="${VERIF_SEED:-1}" "$ROOT/check" "$p" "$TIER" > "$ROOT/work/selftest-$n-$p.log" 2>&1; rc=$?
+    VERIF_EVIDENCE_DIR="$ROOT/work/selftest-evidence" VERIF_SEED="${VERIF_SEED:-1}" "$ROOT/check" "$p" "$TIER" > "$ROOT/work/selftest-$n-$p.log" 2>&1; rc=$?
     e=$(date +%s)
     if [ $rc -eq 1 ] && grep -q "^VIOLATION property=$p" "$ROOT/work/selftest-$n-$p.log"; then caught="$caught $p($((e-s))s)"; fi
     [ "$p" = "$prop" ] && primary_rc=$rc
@@ -26,5 +26,5 @@ for n in "${names[@]}"; do
   if [ -n "$caught" ]; then echo "$n: CAUGHT by$caught"; pass=$((pass+1)); else echo "$n: MISSED by $prop (rc=$primary_rc)"; fail=$((fail+1)); fi
 done
 echo "selftest: $pass caught, $fail missed"
-# restore evidence of the unchanged tree is the caller's business (re-run the checks)
+# evidence of these runs goes to work/selftest-evidence, /verif/evidence is left alone
 [ $fail -eq 0 ]
